@@ -579,11 +579,29 @@ def _run(states, inner, m):
 
     class T:
         events = ev
-    try:
-        df = _generic_transitions_to_jumps(T, minimal_residence=m)
-    except ValueError:
-        return []
-    return [tuple(int(x) for x in r) for r in df[['atom index', 'start site', 'destination site', 'start time', 'stop time']].to_numpy()]
+    COLS_ = ['atom index', 'start site', 'destination site', 'start time', 'stop time']
+
+    def conv(T_):
+        try:
+            df_ = _generic_transitions_to_jumps(T_, minimal_residence=m)
+        except ValueError:
+            return []
+        arr_ = df_[COLS_].to_numpy()
+        if not np.isfinite(arr_.astype(float)).all():
+            return [(-888, -888, -888, -888, -888)]  # marker row: not-a-number in the jump table
+        return [tuple(int(x) for x in r) for r in arr_]
+    res = conv(T)
+    # the same event table carrying other row labels (as the tables of the parts of a split do: their index does not start at 0): the jumps
+    # are a function of the rows, not of their labels
+    ev2 = ev.copy()
+    ev2.index = ev2.index + 7
+
+    class T2:
+        events = ev2
+    res2 = conv(T2)
+    if res2 != res:
+        return [(-777, -777, -777, len(res), len(res2))] + res  # marker row: the jumps depend on the row labels of the event table (counts with / without shifted labels)
+    return res
 
 
 def replay_history(inputs):
@@ -655,7 +673,12 @@ def replay_history(inputs):
         if prev is not None and not set(rows) <= set(prev):
             bad.append(f'raising the residence to {m} added jumps {sorted(set(rows) - set(prev))[:3]}')
         prev = rows
-    return {'reproduced': bool(bad), 'detail': f'states={states.T.tolist()} inner={inner.T.tolist()}: ' + '; '.join(bad[:3])}
+    note = ''
+    if any('-777' in b_ for b_ in bad):
+        note = ' [a row (-777, -777, -777, n, n\') marks: the jump table changes (n vs n\' rows or other content) when the row labels of the event table are shifted by 7]'
+    if any('-888' in b_ for b_ in bad):
+        note += ' [a row of -888 marks: not-a-number entries in the jump table]'
+    return {'reproduced': bool(bad), 'detail': f'states={states.T.tolist()} inner={inner.T.tolist()}: ' + '; '.join(bad[:3]) + note}
 
 
 def bounded_histories(tier, seed):
